@@ -110,3 +110,17 @@ func (c *Client) VQLen() int { return len(c.send) }
 func VSlashify(p string) string { return slashify(p) }
 func VConnType(p string) string { return getConnectionTypeFromPath(p) }
 func VTopic(p string) string    { return getTopicFromPath(p) }
+
+// VTxCount is the number of messages this client's readPump has forwarded to the hub
+func (c *Client) VTxCount() uint64 {
+	c.stats.tx.mu.RLock()
+	defer c.stats.tx.mu.RUnlock()
+	return c.stats.tx.size.Count()
+}
+
+// VRxCount is the number of websocket frames this client's writePump has written
+func (c *Client) VRxCount() uint64 {
+	c.stats.rx.mu.RLock()
+	defer c.stats.rx.mu.RUnlock()
+	return c.stats.rx.size.Count()
+}
